@@ -60,7 +60,7 @@ def main(argv):
     ev = {
         "property_id": pid, "tier": a.tier, "seed": seed, "level": res.get("level", "model_checking"),
         "coverage": res["coverage"], "assumptions": res.get("assumptions", []),
-        "wall_s": round(wall, 2), "violations": len(reported),
+        "wall_s": round(max(wall, res.get("engine_wall_s", 0)), 2), "violations": len(reported),
     }
     ev["coverage"]["known_findings_seen"] = sorted(seen_known.keys())
     evdir = os.environ.get("VERIF_EVIDENCE_DIR", os.path.join(VERIF, "evidence"))
